@@ -5,6 +5,7 @@ from common import *
 
 STATES = ['todo', 'doing', 'done', 'blocked', 'canceled', 'error']
 AGENTS = ['alice', 'bob@host', 'zed']
+ODD_AGENTS = ['bob ', ' zed', '  ', 'al ice', '\tt']      # identities are exact strings: padded / blank-looking ones are stored verbatim
 TEXTS = ['Fix login', 'Write docs', 'a', 'Deploy v2', 'Refactor "core"', 'back\\slash', 'tab\there', 'multi\nline',
          'héllo wörld', '日本語のタイトル', 'emoji \U0001F600 ok', '<b>&amp;</b>',
          'u2028 sep', '  padded  ', 'é combining', '# heading', 'x' * 90, 'ctl\x01\x1f', ' nbsp ',
@@ -334,7 +335,7 @@ class History:
                 if rng.random() < 0.22:
                     f['state'] = rng.choice(STATES + ['bogus'] if rng.random() < 0.08 else STATES)
                 if rng.random() < 0.2:
-                    f['claim'] = rng.choice(AGENTS + ([''] if mode == 'json' else []))
+                    f['claim'] = rng.choice(AGENTS + ([''] if mode == 'json' else [])) if rng.random() >= 2.5 * (self.profile or {}).get('odd_agent_p', 0.06) else rng.choice(ODD_AGENTS)
                 if mode == 'json' and rng.random() < 0.06:
                     f['result_path'], f['result_summary'] = self.make_result_fields()
         else:
@@ -353,7 +354,7 @@ class History:
                 elif key == 'state':
                     f['state'] = rng.choice(STATES + ['bogus'] if rng.random() < 0.05 else (self.profile or {}).get('states', STATES))
                 elif key == 'claim':
-                    f['claim'] = rng.choice(AGENTS + (['', ''] if mode == 'json' else []))
+                    f['claim'] = rng.choice(AGENTS + (['', ''] if mode == 'json' else [])) if rng.random() >= 2 * (self.profile or {}).get('odd_agent_p', 0.06) else rng.choice(ODD_AGENTS)
                 elif key == 'result':
                     p, s = self.make_result_fields()
                     if rng.random() < 0.93:
@@ -425,6 +426,8 @@ class History:
         if self.profile:
             w.update(self.profile.get('weights', {}))
         agent = rng.choice(AGENTS) if rng.random() < (self.profile or {}).get('agent_p', 0.8) else None
+        if agent is not None and rng.random() < (self.profile or {}).get('odd_agent_p', 0.06):
+            agent = rng.choice(ODD_AGENTS)
         if not self.snap['tasks']:
             kind = 'new'
         else:
